@@ -1,6 +1,62 @@
-(* Corr/TrieCorr.v — correspondence entry points. *)
+(* Corr/TrieCorr.v — correspondence entry points for package trie.
+   Kind "trie_history": case = [ops queries k p]
+     ops     : list of [i0 bytes] (Add) | [i1 bytes] (Delete)
+     queries : list of byte strings asked of Has at every observation
+     k       : observe after every k-th step (and always after the last one)
+     p       : the ForEach callback of the third observable returns false at
+               its p-th call (0: never)
+   observable = [steps final]
+     steps : per op [r] or [r obs], r = Delete's result (0 for Add)
+     obs   : [ForEach output sorted, Has answers, number of reports of a ForEach
+             stopped at the p-th]
+     final : the same obs on the trie rebuilt from its JSON form. *)
 From Coq Require Import String.
 From Bio Require Import Base.
 From Bio.Model Require Import Trie.
 
-Definition corr_trie : list (string * (val -> val)) := [].
+Definition dec_op (v : val) : option op :=
+  match v with
+  | VL [VI 0%Z; VB b] => Some (OAdd b)
+  | VL [VI 1%Z; VB b] => Some (ODel b)
+  | _ => None
+  end.
+
+(* ForEach in ascending key order reports in lexicographic order: the harness
+   sorts the implementation's reports with bytes.Compare. *)
+Definition obs (qs : list bytes) (p : nat) (t : trie) : val :=
+  VL [ v_outcome (fun l => VL (map VB l)) (for_each t);
+       VL (map (fun q => v_bool (has q t)) qs);
+       v_outcome (fun l => VI (Z.of_nat (length l))) (for_each_until p t) ].
+
+Fixpoint steps (ops : list op) (t : trie) (i k : N) (qs : list bytes) (p : nat)
+  : list val * trie :=
+  match ops with
+  | [] => ([], t)
+  | o :: r =>
+    let (t', res) := apply_op o t in
+    let rv := VI (match res with Some true => 1 | _ => 0 end)%Z in
+    let observe := (negb (k =? 0) && ((i + 1) mod k =? 0)) || is_nil r in
+    let sv := if observe then VL [rv; obs qs p t'] else VL [rv] in
+    let (vs, tf) := steps r t' (i + 1) k qs p in
+    (sv :: vs, tf)
+  end.
+
+Definition c_trie_history (v : val) : val :=
+  match v with
+  | VL [VL ops; qsv; VI k; VI p] =>
+    match all_some (map dec_op ops), as_bytes_list qsv with
+    | Some ops', Some qs =>
+      let pn := Z.to_nat p in
+      let (vs, tf) := steps ops' empty 0 (Z.to_N k) qs pn in
+      let final := match of_json (to_json tf) with
+                   | Some t2 => v_ok (obs qs pn t2)
+                   | None => v_err
+                   end in
+      VL [VL vs; final]
+    | _, _ => v_bad
+    end
+  | _ => v_bad
+  end.
+
+Definition corr_trie : list (string * (val -> val)) :=
+  [ ("trie_history"%string, c_trie_history) ].
